@@ -80,3 +80,23 @@ Section S.
       + apply nth_error_None in Ej. lia.
   Qed.
 End S.
+
+(* nothing withheld: the activation of a FusionART category is the gamma-weighted sum of the channel modules' own
+   activations (C10) *)
+Fixpoint wsumR (tg : list (R * R)) : R := match tg with [] => 0 | (t, g) :: tg' => t * g + wsumR tg' end.
+Lemma rem_sum_nil k tg : rem_sum k [] tg = wsumR tg.
+Proof. revert k. induction tg as [|[t g] tg IH]; intros k; cbn [rem_sum wsumR existsb]; [reflexivity|]. rewrite IH. reflexivity. Qed.
+
+Theorem choice_is_weighted_sum (mods : list (Kernel RN)) (gammas : list (T RN)) (dims wdims : list nat)
+        (Ws : list (list (T RN))) (x w : list (T RN)) (t : R) :
+  k_choice (fusionK mods gammas dims wdims) Ws x w = Some t ->
+  exists ts, length ts = length (combine mods (pos dims wdims)) /\
+    (forall k Kp, nth_error (combine mods (pos dims wdims)) k = Some Kp -> nth_error ts k = own Ws x w Kp) /\
+    t = wsumR (combine ts gammas).
+Proof.
+  cbn [k_choice fusionK]. unfold fusion_choice. intros H.
+  destruct (skip_choice_is_remaining_sum mods gammas dims wdims [] Ws x w t H) as (ts & L & Hown & Ht).
+  exists ts. split; [exact L|]. split.
+  - intros k Kp Hk. apply Hown; [exact Hk|reflexivity].
+  - rewrite Ht. apply rem_sum_nil.
+Qed.
